@@ -8,3 +8,5 @@ import JaxVerif.Properties.C04
 #print axioms JV.C04_array_idempotent
 #print axioms JV.C04_pytree_fail_restores
 #print axioms JV.C04_check_restores
+#print axioms JV.C04_seq_idempotent
+#print axioms JV.C04_pytree_idempotent
